@@ -116,23 +116,23 @@ def mkwcs(crval, rot, scale=SCALE):
     return w
 
 
-def field(wseed, far):
+def field(wseed, far, ws=1.0):
     """sources of one field: (ra, dec, sid) and, per slot, visible indices; core = visible from all slots."""
-    key = ('field', wseed, far)
+    key = ('field', wseed, far, ws)
     if key in _cache:
         return _cache[key]
     c = FAR if far else NEAR
     rng = np.random.default_rng(1000 * wseed + (7 if far else 3))
-    g = (np.arange(6) - 2.5) * 0.0034
+    g = (np.arange(6) - 2.5) * 0.0034 * ws
     X, Y = np.meshgrid(g, g)
-    X = X.ravel() + rng.uniform(-0.0007, 0.0007, X.size)
-    Y = Y.ravel() + rng.uniform(-0.0007, 0.0007, Y.size)
+    X = X.ravel() + rng.uniform(-0.0007, 0.0007, X.size) * ws
+    Y = Y.ravel() + rng.uniform(-0.0007, 0.0007, Y.size) * ws
     ra = c[0] + X / np.cos(np.deg2rad(c[1]))
     dec = c[1] + Y
     sid = np.arange(1, 37) + (5000 if far else 0)
     vis = []
     for (dx, dy, rot) in SLOTS + [REFSLOT]:
-        wt = mkwcs((c[0] + dx / np.cos(np.deg2rad(c[1])), c[1] + dy), rot)
+        wt = mkwcs((c[0] + ws * dx / np.cos(np.deg2rad(c[1])), c[1] + ws * dy), rot, scale=SCALE * ws)
         x, y = wt.all_world2pix(ra, dec, 0)
         m = (x > 8) & (x < NPIX - 8) & (y > 8) & (y < NPIX - 8)
         vis.append((wt, x, y, m))
@@ -149,17 +149,20 @@ def build(spec):
     T = _tw()
     Table = T['Table']
     wseed = spec['wseed']
+    # world scale: every angular size of the scenario (pixel scale, source lattice, pointing offsets, WCS errors) is
+    # multiplied by ws; pixel coordinates are unchanged. ws = 0.2 gives ~15 arcsec fields (overlaps < 1e-8 sr)
+    ws = float(spec.get('ws', 1.0))
     key2sid = {}
     cors, rows, ids = [], [], []
     for i, im in enumerate(spec['images']):
-        F = field(wseed, im['far'])
+        F = field(wseed, im['far'], ws)
         wt, x, y, m = F['vis'][im['slot']]
         rng = np.random.default_rng(spec['wseed'] * 7919 + 31 * i + im['slot'] + 1000 * im.get('cseed', 0))
         c = F['center']
         dx, dy, rot = SLOTS[im['slot']]
         e = im.get('err', (1.0, -1.5, 0.01, 1.0))
-        wg = mkwcs((c[0] + dx / np.cos(np.deg2rad(c[1])) + e[0] * SCALE, c[1] + dy + e[1] * SCALE), rot + e[2],
-                   scale=SCALE * e[3])
+        wg = mkwcs((c[0] + ws * (dx / np.cos(np.deg2rad(c[1])) + e[0] * SCALE), c[1] + ws * (dy + e[1] * SCALE)),
+                   rot + e[2], scale=SCALE * e[3] * ws)
         name = 'im%d' % i
         if im['kind'] == 'good':
             keep = m & (F['core'] | (rng.random(36) < im.get('keep', 0.7)))
@@ -212,7 +215,7 @@ def build(spec):
         rng = np.random.default_rng(spec['wseed'] * 104729 + ref.get('rseed', 0))
         sel_ra, sel_dec, sel_sid = [], [], []
         for far in ([False] if ref['field'] == 'near' else [True] if ref['field'] == 'far' else [False, True]):
-            F = field(wseed, far)
+            F = field(wseed, far, ws)
             keep = F['core'] | (rng.random(36) < ref.get('keep', 0.5))
             if ref.get('core_only'):
                 keep = F['core'].copy()
@@ -240,7 +243,7 @@ def build(spec):
             ref_extra['table0'] = refcat.copy()
         elif mode in ('corr', 'corr_nocat'):
             far = ref['field'] == 'far'
-            F = field(wseed, far)
+            F = field(wseed, far, ws)
             wt = F['vis'][len(SLOTS)][0]
             x, y = wt.all_world2pix(sel_ra, sel_dec, 0)
             cat = Table([x, y, sel_sid], names=('x', 'y', 'sid'))
@@ -580,7 +583,7 @@ def mk_spec(rng, kinds, gids, refmode, expand, enforce, far_prob=0.15, **kw):
     pool = rng.choice([[0, '', 7, 'g', 3.5, (1,)], [False, 'x', '', -1, (0,), 2], [1, 2, 3, 4, 5, 6]])
     labels = rng.sample(pool, 3)
     return dict(wseed=rng.randrange(4), images=images, ref=ref, expand=expand, enforce=enforce, fitgeom=fitgeom,
-                minobj=minobj, match='scripted', nclip=rng.choice([0, 3]),
+                minobj=minobj, match='scripted', nclip=rng.choice([0, 3]), ws=rng.choice([1.0, 1.0, 0.2]),
                 gid_labels={1: labels[0], 2: labels[1], 3: labels[2]})
 
 
